@@ -220,6 +220,7 @@ class LocalDate {
 
     /** Return the number of days in the current month. */
     static uint8_t daysInMonth(int16_t year, uint8_t month) {
+      if (month < 1 || month > 12) return 0; // invalid month: no table entry
       uint8_t days = sDaysInMonth[month - 1];
       return (month == 2 && isLeapYear(year)) ? days + 1 : days;
     }
@@ -261,11 +262,15 @@ class LocalDate {
 
     /**
      * Calculate the day of week given the (year, month, day). Idea borrowed
-     * from https://github.com/evq/utz. No validation of year, month or day is
-     * performed. If this is found to be too slow, then consider caching the
-     * results.
+     * from https://github.com/evq/utz. No validation of year or day is
+     * performed; an invalid month returns 0. If this is found to be too slow,
+     * then consider caching the results.
      */
     uint8_t dayOfWeek() const {
+      // An invalid month has no entry in sDayOfWeek[]. Return 0, which is not
+      // a day of the week (DateStrings maps it to "Error").
+      if (mMonth < 1 || mMonth > 12) return 0;
+
       // The "year" starts in March to shift leap year calculation to end.
       int16_t y = year() - (mMonth < 3);
       int16_t d = y + y/4 - y/100 + y/400 + sDayOfWeek[mMonth-1] + mDay;
